@@ -435,7 +435,7 @@ namespace sqf::parser::sqf
             m_current(start),
             m_end(end),
             m_mode(emode::normal),
-            m_line(0),
+            m_line(1), // Lines are counted from 1; a #line marker sets the count for preprocessed text
             m_column(0)
         {
             m_strings.push_back(new std::string(path));
